@@ -3,7 +3,7 @@
 id=$1
 export GOFLAGS=-mod=mod GOPROXY=off GOSUMDB=off GOTOOLCHAIN=local
 [ -z "$(git -C /repo status --porcelain)" ] || { echo "/repo not clean"; exit 2; }
-git -C /repo apply /tmp/benign/$id.out/patch.diff || exit 2
+git -C /repo apply /verif/benign/$id/patch.diff || exit 2
 echo "== $id: repo tests"; go -C /repo test -mod=mod -vet=off -count=1 ./... 2>&1 | grep -v "no test files" | grep -v "^ok" | head -5
 echo "== $id: checks"; /verif/runall.sh 2>&1 | cut -c1-200 | grep -vE "exit=0 " 
 git -C /repo checkout -- . ; git -C /repo clean -fdq -- internal pkg cmd
